@@ -135,4 +135,19 @@ def runSyncDestRequest (toks : List String) : String :=
     | .err => "err"
     | .escape => "escape"
 
+/-- `synctrees <source root> <source nodes> <dest root> <dest nodes>`: the objects of `C01_mirror_two_trees` -/
+def runSyncTreesRequest (toks : List String) : String :=
+  match P.run (do
+      let rs ← P.str; let S ← P.fsNodes
+      let rd ← P.str; let D ← P.fsNodes
+      pure (rs, S, rd, D)) toks with
+  | none => "bad-op"
+  | some (rs, S, rd, D) =>
+    let rs := pathComps rs; let rd := pathComps rd
+    let fS := S.nodes.length + 1; let fD := D.nodes.length + 1
+    match syncDest D rd (srcOfFS S rs) (lsOfFS S rs fS) ((listNodes D fD rd).map fun e => (e.1.drop rd.length, e.2)) with
+    | .ok fs' => s!"ok fs=[{fs'.render}]"
+    | .err => "err"
+    | .escape => "escape"
+
 end Rj
